@@ -71,7 +71,7 @@ def generate(rng, cfg: Dict) -> Dict:
                 f["target"] = c.pick(BUILTINS)
                 f["container"] = c.pick(["List", "Set", "Tuple"])
             elif kind in ("enum", "opt_enum"):
-                f["target"] = "Color"
+                f["target"] = c.weighted([("Color", 3), ("Level", 1), ("Tone", 1)])
             else:
                 f["target"] = c.pick(names)
                 f["container"] = c.weighted([("List", 4), ("Set", 3), ("Tuple", 2)])
@@ -155,7 +155,7 @@ def default_of(f: Dict) -> str:
     if k == "builtin":
         return {"int": "0", "str": "''", "float": "0.0", "bool": "False"}[f["target"]]
     if k == "enum":
-        return "Color.RED"
+        return f"{f['target']}.RED"
     if k in ("list_builtin", "one_to_many"):
         return "()" if f["container"] == "Tuple" else "field(default_factory=%s)" % ("list" if f["container"] == "List" else "set")
     return "None"
@@ -166,7 +166,9 @@ def source_of(scenario: Dict, module: str) -> str:
     lines += ["from dataclasses import dataclass, field", "from typing import Optional, List, Set, Tuple, Type", "import enum"]
     if scenario.get("symbol_family"):
         lines.append("from krrood.entity_query_language.predicate import Symbol")
-    lines += ["", "class Color(enum.Enum):", "    RED = 1", "    BLUE = 2", ""]
+    lines += ["", "class Color(enum.Enum):", "    RED = 1", "    BLUE = 2", "",
+              "class Level(enum.IntEnum):", "    RED = 1", "    HIGH = 2", "",
+              "class Tone(str, enum.Enum):", "    RED = 'r'", "    DARK = 'd'", ""]
     for cl in scenario["classes"]:
         if cl["module"] != module:
             continue
@@ -449,6 +451,7 @@ def execute(scenario: Dict) -> Dict:
         verdicts.append(kernel.verdict("C17.order", "two orders of the class list give different diagrams", aspect="order", where="build"))
         ok = False
     sg_snapshot = None
+    answers: Dict[tuple, str] = {}
     tmpdir = None
     derived_count = 0
     if ok:
@@ -464,6 +467,12 @@ def execute(scenario: Dict) -> Dict:
                     log.add("read", op[1] % len(diagrams), op[2], a1)
                     if kernel.canonical(a1) != kernel.canonical(a2):
                         verdicts.append(kernel.verdict("C17.stable", f"op {n}: {op[2]} answered {a1} and then {a2}", aspect="unstable", where="read"))
+                        break
+                    # a diagram never changes, so neither may its answers: the first answer to a question is remembered
+                    key = (op[1] % len(diagrams), op[2], cls.__name__ if op[2] not in ("wrapped_classes", "associations", "inheritance_relations", "parent_map", "get_assoc_keys_by_source") else "")
+                    first = answers.setdefault(key, kernel.canonical(a1))
+                    if first != kernel.canonical(a1):
+                        verdicts.append(kernel.verdict("C17.stable", f"op {n}: {op[2]} of diagram #{key[0]} now answers {a1}; earlier in this history it answered {first}", aspect="changed-over-history", where="read"))
                         break
                 elif kind == "derive":
                     rec = diagrams[op[1] % len(diagrams)]
